@@ -274,7 +274,7 @@ func init() {
 	})
 	reg(rtPkg+"Yield", func(fr *frame, a []Value) Value { fr.w.sched.point(fr.g); return nil })
 	reg(rtPkg+"Sleep", func(fr *frame, a []Value) Value {
-		fr.w.sched.sleep(fr.g, fr.concInt(a[0], "sleep duration"))
+		fr.w.sched.sleepH(fr.g, fr.concInt(a[0], "sleep duration"), true)
 		return nil
 	})
 	reg(rtPkg+"NowNs", func(fr *frame, a []Value) Value { return intC(fr.w.sched.now) })
